@@ -16,7 +16,9 @@ LEVEL = "fault_enumeration"
 RULE = ("each forked case runs a ProgGen program through the production Logger with a FileDestination on a real file, a recording "
         "destination and 0-3 masked faulty destinations; ~1/3 of all field values (and log_call results) come from the hostile domain "
         "(str/repr raising, non-string dict keys, >64-bit integers, NaN, bytes, lone surrogates, plain objects, nesting beyond the "
-        "encoder's limit, self-referential containers); typed-field serializers raise on masked calls; extractors (some raising, some "
+        "encoder's limit, self-referential containers, Enum members, namedtuples, dataclasses, str/int subclasses, objects whose __iter__/__len__/__bool__/"
+        "__getattr__ raise, numpy look-alikes, generators - which must still be unconsumed afterwards -, Decimal, Fraction, exception instances and "
+        "groups); part of the traceback calls are made with no exception in flight; typed-field serializers raise on masked calls; extractors (some raising, some "
         "registered on Exception/BaseException, i.e. on bases of their own exception) are registered on random classes of the pool's "
         "MROs. Monitor: every public API call returns normally, the exception leaving every block is the object the body raised, "
         "log_call / preserved callables return the function's own result object. non-trivial = >=1 injected fault actually fired; "
